@@ -408,6 +408,9 @@ type ClientOpts struct {
 	User    string
 	Ciphers string
 	Dev     Dev
+	// OnSelect, if set, runs the client half of a method other than CLAIMTOBE when
+	// the server selects it; it returns the method name and the identity used.
+	OnSelect func(ctx context.Context, st *stream.Stream, sel int) (method, user string, err error)
 }
 
 // Client runs the scripted client side of a full handshake on st.
@@ -491,6 +494,22 @@ func Client(ctx context.Context, st *stream.Stream, o ClientOpts) (rec *Record) 
 		}
 		rec.AuthSelected = sel
 		rec.step("server selected %#x", sel)
+		if sel != BitClaimToBe && o.OnSelect != nil {
+			// a scenario-supplied method implementation (e.g. a scripted AKEP2 client)
+			name, user, err := o.OnSelect(ctx, st, sel)
+			if err != nil {
+				rec.Err = fmt.Errorf("scripted method %#x: %w", sel, err)
+				return
+			}
+			rec.AuthRan, rec.AuthUser = name, user
+			km := message.NewMessageFromStream(st)
+			if _, err := km.GetInt(ctx); err != nil {
+				rec.Err = fmt.Errorf("exchangeKey: %w", err)
+				return
+			}
+			rec.step("%s completed (scripted)", name)
+			goto keyAgreement
+		}
 		if sel != BitClaimToBe {
 			rec.Err = fmt.Errorf("server selected %#x; puppet only speaks CLAIMTOBE", sel)
 			return
@@ -530,6 +549,7 @@ func Client(ctx context.Context, st *stream.Stream, o ClientOpts) (rec *Record) 
 		}
 		rec.step("CLAIMTOBE completed")
 	}
+keyAgreement:
 	serverPub, _ := sad.EvaluateAttrString("ECDHPublicKey")
 	var key []byte
 	if o.Dev.ECDH == "" && serverPub != "" && !o.Dev.NoCommonCipher {
